@@ -176,6 +176,9 @@ def fault_case(world, mode, op, path, args, fault, out, sig):
         c["A_raised"] = c.get("A_raised", 0) + 1
         c["A_raised:" + type(exc).__name__] = c.get("A_raised:" + type(exc).__name__, 0) + 1
     case = {"cls": info.name, "mode": mode, "op": op, "path": path, "args": args, "fault": list(fault)}
+    if fired["v"] and exc is not None and len(out["samples"]) < 2:
+        out["samples"].append({**case, "A_raised": type(exc).__name__, "then": "lock shims inspected; thread B probes "
+                               "same file / same object / other file / other class / new object"})
     if res["status"] != "ok":
         out["violations"].append({"sig": {**sig, "kind": "A_" + res["status"], "op": op, "fault": kind},
                                   "detail": f"thread A did not finish: {res['status']} {res['blocked']}", "case": case})
@@ -293,7 +296,6 @@ def part_a(spec, out):
     finally:
         world.close()
     out["keys"] += keys
-    out["samples"].append({"part": "A", "cls": info.name, "mode": mode, "ops": len(ops)})
 
 
 def _with_value(op, args, value, nested=False):
